@@ -3,8 +3,9 @@
  * One process is ONE run of the sender node (the ApiListener is a singleton; a sender restart is a NEW
  * process on the same data directory).  Topology (fixed):
  *
- *     zone master = { aaa, zzz }   the local node is one of the two, the other one is peer A
- *        └── zone sat = { pb }        peer B (immediate child zone)
+ *     zone top = { pt1, pt2 }      peers E, F (the parent zone, two endpoints)
+ *      └─ zone master = { aaa, zzz }   the local node is one of the two, the other one is peer A
+ *        └── zone sat = { pb, pb2 }   peers B, D (immediate child zone, two endpoints)
  *              ├── zone agent = { pc }   peer C (not directly related: the clean-up ignores it)
  *              └── zone zx = { }         can be unregistered (`drop`): "the object no longer exists"
  *     zone g (global)
@@ -17,11 +18,14 @@
  * incoming messages go through JsonRpcConnection::MessageHandler.
  *
  * Lines (times in µs, file names in s; text after ` | ` is the observation):
- *   C <n> <now> <paFirst> <durA> <durB> <durC>      fresh case: empty api/log, positions 0, log opened at <now>;
+ *   C <n> <now> <paFirst> <durA> .. <durF> | <satRev> <topRev>   fresh case: empty api/log, positions 0, log opened at <now>;
+ *                                                   satRev/topRev: the zone's second endpoint (D / F) is visited first (std::set of pointers);
  *                                                   paFirst=1: peer A's name sorts before ours (A is master when connected)
- *   relay <now> <id> <sec>   | <frame hex|-> <livemask> <newfile|-> <P>   sec: - m s a x g ; livemask bit0 A bit1 B bit2 C;
+ *   relay <now> <id> <sec> [<reclen>] | <frame hex|-> <livemask> <newfile|-> <P>   sec: - m s a x g ; livemask bit p = peer p;
+ *                                                   reclen: pad the event so that the persisted record has (about) that many bytes; long runs of
+ *                                                   the padding byte are printed as ~<count>~ inside the hex;
  *                                                   newfile: name of the file a rotation inside PersistMessage created
- *   conn <p> | <P>      disc <p> | <P>                          p: A B C   (conn also sets `syncing`, as SyncClient does)
+ *   conn <p> | <P>      disc <p> | <P>                          p: A B C D E F   (conn also sets `syncing`, as SyncClient does)
  *   replay <now> <p>         | <vis> <out> <P>                  vis: 5 bits m s a x g as seen by p's zone; out: M<id>@<ts>,L<v>,...
  *   probe <file> <k> <hex|-> <now> <p> | <vis> <out> <P>        bytes of <file> from offset k on replaced by <hex>, ReplayLog, file restored
  *                                                   (<k> may be `?r`: r mod (size+1), printed resolved)
@@ -37,8 +41,8 @@
  *   dump <now> | <vis> <out> <P>                    (every record on disk the production reader yields: ReplayLog to A from position 0)
  *   stop <now> | <newfile|-> <P>          (ApiListener::Stop via Deactivate; the process ends)
  *   crash <k> | <P>           (the process ends without Stop; only the first k bytes of current survive, -1: all)
- *   start <now> | <P>         (new process on the same directory; state attributes restored as the state file would)
- *   <P> = lposA,rposA,lposB,rposB,lposC,rposC
+ *   start <now> | <satRev> <topRev> <P>   (new process on the same directory; state attributes restored as the state file would)
+ *   <P> = lposA,rposA,lposB,rposB, ... ,lposF,rposF
  *
  * Modes: gen --seed S --tier quick|thorough | ops FILE | part FILE --dir D | node FILE --dir D (internal)
  */
@@ -115,6 +119,23 @@ static std::string Hex(const std::string& s)
 	return r.empty() ? "-" : r;
 }
 
+/* long runs of the padding byte 'x' are written as ~<count>~ between hex parts */
+static std::string HexRle(const std::string& s)
+{
+	if (s.size() < 4096) return Hex(s);
+	size_t best = 0, bestLen = 0;
+	for (size_t i = 0; i < s.size();) {
+		if (s[i] != 'x') { i++; continue; }
+		size_t j = i;
+		while (j < s.size() && s[j] == 'x') j++;
+		if (j - i > bestLen) { best = i; bestLen = j - i; }
+		i = j;
+	}
+	if (bestLen < 1024) return Hex(s);
+	std::string a = s.substr(0, best), b = s.substr(best + bestLen);
+	return (a.empty() ? "" : Hex(a)) + "~" + std::to_string(bestLen) + "~" + (b.empty() ? "" : Hex(b));
+}
+
 static std::string UnHex(const std::string& h)
 {
 	std::string r;
@@ -165,47 +186,52 @@ struct Gen {
 	void Emit(const std::string& s) { out.push_back(s); if (s == "ls" && dumpOk) out.push_back("dump " + std::to_string(now)); }
 	bool dumpOk = true;
 	std::string Now() { return std::to_string(now); }
-	void Header(int paFirst, int dA, int dB, int dC) {
+	void Header(int paFirst, int dA, int dB, int dC, int dD = 86400, int dE = 86400, int dF = 86400) {
 		now = T0 + (long long)rng.below(3) * 500000;
 		nextId = 1;
 		caseNo++;
-		Emit("C " + std::to_string(caseNo) + " " + Now() + " " + std::to_string(paFirst) + " " + std::to_string(dA) + " " +
-			std::to_string(dB) + " " + std::to_string(dC));
+		std::string l = "C " + std::to_string(caseNo) + " " + Now() + " " + std::to_string(paFirst);
+		for (int d : { dA, dB, dC, dD, dE, dF }) l += " " + std::to_string(d);
+		Emit(l);
 	}
-	void Relay(const char *sec) { Emit("relay " + Now() + " " + std::to_string(nextId++) + " " + sec); }
+	void Relay(const char *sec, long long reclen = 0) {
+		Emit("relay " + Now() + " " + std::to_string(nextId++) + " " + sec + (reclen > 0 ? " " + std::to_string(reclen) : ""));
+	}
 };
 
 static const int kDurs[] = { -1, 0, 5, 60, 3600, 86400, 86400 };
 static const char *kSecs[] = { "-", "m", "s", "a", "x", "g" };
-static const char *kPeers[] = { "A", "B", "C" };
+static const char *kPeers[] = { "A", "B", "C", "D", "E", "F" };
+static const int kGP = 6;
 
 static void GenRandomCase(Gen& g, int len)
 {
 	Rng& r = g.rng;
-	g.Header((int)r.below(2), kDurs[r.below(7)], kDurs[r.below(7)], kDurs[r.below(7)]);
-	bool conn[3] = { false, false, false };
+	g.Header((int)r.below(2), kDurs[r.below(7)], kDurs[r.below(7)], kDurs[r.below(7)], kDurs[r.below(7)], kDurs[r.below(7)], kDurs[r.below(7)]);
+	bool conn[kGP] = { false, false, false, false, false, false };
 	bool running = true, dropped = false;
-	long long rp[3] = { 0, 0, 0 };      /* the remote position each peer's accepted messages imply (pure bookkeeping of what was sent) */
+	long long rp[kGP] = { 0, 0, 0, 0, 0, 0 };      /* the remote position each peer's accepted messages imply (pure bookkeeping of what was sent) */
 	auto sec = [&]() { const char *x = kSecs[r.below(6)]; return (dropped && x[0] == 'x') ? "s" : x; };
+	auto peer = [&]() { return (int)r.below(kGP); };
 	for (int i = 0; i < len; i++) {
 		g.Tick();
-		if (!running) { g.Emit("start " + g.Now()); g.Emit("ls"); running = true; conn[0] = conn[1] = conn[2] = false; continue; }
+		if (!running) { g.Emit("start " + g.Now()); g.Emit("ls"); running = true; for (bool& c : conn) c = false; continue; }
 		int k = (int)r.below(100);
 		if (k < 40) g.Relay(sec());
-		else if (k < 50) { int p = (int)r.below(3); if (!conn[p]) { g.Emit(std::string("conn ") + kPeers[p]); conn[p] = true; }
+		else if (k < 50) { int p = peer(); if (!conn[p]) { g.Emit(std::string("conn ") + kPeers[p]); conn[p] = true; }
 			g.Emit("replay " + g.Now() + " " + kPeers[p]); }
-		else if (k < 56) { int p = (int)r.below(3); if (!conn[p]) { g.Emit(std::string("conn ") + kPeers[p]); conn[p] = true; } }
-		else if (k < 64) { int p = (int)r.below(3); if (conn[p]) { g.Emit(std::string("disc ") + kPeers[p]); conn[p] = false; } }
+		else if (k < 56) { int p = peer(); if (!conn[p]) { g.Emit(std::string("conn ") + kPeers[p]); conn[p] = true; } }
+		else if (k < 64) { int p = peer(); if (conn[p]) { g.Emit(std::string("disc ") + kPeers[p]); conn[p] = false; } }
 		else if (k < 71) { g.Emit("rotate " + g.Now()); g.Emit("ls"); }
 		else if (k < 78) { g.Emit("timer " + g.Now()); g.Emit("ls"); }
 		else if (k < 84) {
 			/* acknowledgement: somewhere around the present */
 			long long v = g.now - (long long)r.below(20000000) + (long long)r.below(3000000);
 			if (r.below(4) == 0) v = (v / 1000000) * 1000000;
-			g.Emit(std::string("ack ") + kPeers[r.below(3)] + " " + std::to_string(v));
+			g.Emit(std::string("ack ") + kPeers[peer()] + " " + std::to_string(v));
 		}
 		else if (k < 89) {
-			int p = (int)r.below(3);
+			int p = peer();
 			long long v = g.now - (long long)r.below(5000000) + (long long)r.below(2000000);
 			/* mostly AT the recorded position and 1 µs around it: equal is not older */
 			if (rp[p] > 0 && r.below(3) != 0) v = rp[p] + (long long)r.below(3) - 1;
@@ -227,14 +253,14 @@ static void GenRandomCase(Gen& g, int len)
 			int n = (int)r.below(24);
 			for (int j = 0; j < n; j++) junk += (char)(r.below(3) ? r.below(256) : "0123456789:,{}\""[r.below(15)]);
 			g.Emit("probe " + std::string(r.below(2) ? "cur" : "#" + std::to_string(r.below(3))) + " ?" + std::to_string(r.below(100000)) + " " +
-				Hex(junk) + " " + g.Now() + " " + kPeers[r.below(3)]);
+				Hex(junk) + " " + g.Now() + " " + kPeers[peer()]);
 		}
 	}
 	if (!running) { g.Tick(); g.Emit("start " + g.Now()); }
 	g.Tick();
 	g.Emit("ls");
 	/* final reconnect of everybody */
-	for (int p = 0; p < 3; p++) {
+	for (int p = 0; p < kGP; p++) {
 		g.Tick();
 		if (!conn[p] || !running) g.Emit(std::string("conn ") + kPeers[p]);
 		g.Emit("replay " + g.Now() + " " + kPeers[p]);
@@ -303,6 +329,54 @@ static void GenReceiverEdgeCase(Gen& g, const char *peer)
 	for (long long v : { t + 3, t + 2, t + 4 }) g.Emit("recv " + p + " " + std::to_string(v));
 }
 
+/* a foreign zone with two endpoints (child zone sat = B, D; parent zone top = E, F): both away, events are persisted; one of them
+ * comes back and further events reach the zone through it; then the other one comes back: what was persisted while nobody of its zone
+ * was there must still be replayed to it (its position must not have been pushed meanwhile) */
+static void GenSiblingCase(Gen& g, int first, int second, const char *sec, int variant)
+{
+	Rng& r = g.rng;
+	g.Header((int)r.below(2), 86400, 86400, 86400, 86400, 86400, 86400);
+	if (variant & 1) g.Emit("conn A");                       /* with / without the zone-master question in the local zone */
+	g.Tick(); g.Relay(sec);                                 /* E0: nobody of the zone is there */
+	g.Tick(); g.Relay(sec);
+	g.Tick(); g.Emit(std::string("conn ") + kPeers[first]);
+	g.Tick(); g.Emit("replay " + g.Now() + " " + kPeers[first]);
+	g.Tick(); g.Relay(sec);                                 /* E1: through the connected sibling */
+	if (variant & 2) { g.Tick(); g.Emit("rotate " + g.Now()); }
+	g.Tick(); g.Relay(sec);
+	if (variant & 4) { g.Tick(); g.Emit(std::string("disc ") + kPeers[first]); g.Tick(); g.Relay(sec); }
+	g.Tick(); g.Emit(std::string("conn ") + kPeers[second]);
+	g.Tick(); g.Emit("replay " + g.Now() + " " + kPeers[second]);
+	g.Tick(); g.Relay(sec);                                 /* both there: the second one is skipped, legitimately advanced */
+	g.Tick(); g.Emit(std::string("disc ") + kPeers[second]);
+	g.Tick(); g.Relay(sec);
+	g.Tick(); g.Emit(std::string("conn ") + kPeers[second]);
+	g.Tick(); g.Emit("replay " + g.Now() + " " + kPeers[second]);
+	g.Emit("ls");
+}
+
+/* records around and beyond 1 MiB, each followed by later events in the same file and in the next one */
+static void GenLargeCase(Gen& g, long long reclen)
+{
+	g.Header(0, 86400, 86400, 86400, 86400, 86400, 86400);
+	g.Tick(); g.Relay("-");
+	g.Tick(); g.Relay("s", reclen);
+	g.Tick(); g.Relay("-");
+	g.Tick(); g.Relay("g");
+	g.now += 1500000;
+	g.Emit("rotate " + g.Now());
+	g.Tick(); g.Relay("-", reclen + 1);
+	g.Tick(); g.Relay("a");
+	g.Emit("conn A");
+	g.Tick(); g.Emit("replay " + g.Now() + " A");
+	g.Emit("conn D");
+	g.Tick(); g.Emit("replay " + g.Now() + " D");
+	g.Tick(); g.Emit("crash -1");
+	g.Tick(); g.Emit("start " + g.Now());
+	g.Emit("conn E");
+	g.Tick(); g.Emit("replay " + g.Now() + " E");
+}
+
 static void GenAll(uint64_t seed, bool thorough, std::vector<std::string>& out)
 {
 	Rng rng(seed * 0x9e3779b97f4a7c15ULL + 12);
@@ -312,6 +386,13 @@ static void GenAll(uint64_t seed, bool thorough, std::vector<std::string>& out)
 	GenReceiverEdgeCase(g, "A");
 	GenReceiverEdgeCase(g, "B");
 	GenReceiverEdgeCase(g, "C");
+	{
+		int v = 0;
+		for (const char *sec : { "s", "a", "g" }) { GenSiblingCase(g, 1, 3, sec, v++); GenSiblingCase(g, 3, 1, sec, v++); }
+		for (const char *sec : { "-", "m", "s" }) { GenSiblingCase(g, 4, 5, sec, v++); GenSiblingCase(g, 5, 4, sec, v++); }
+	}
+	for (long long len : { 1048575LL, 1048576LL, 1048577LL, 2097152LL }) GenLargeCase(g, len);
+	if (thorough) { GenLargeCase(g, 5242880LL); GenLargeCase(g, 1048574LL); GenLargeCase(g, 3000000LL); }
 	GenCutCase(g, 3, "A");
 	GenCutCase(g, 2, "B");
 	if (thorough) { GenCutCase(g, 4, "A"); GenCutCase(g, 3, "B"); GenCutCase(g, 1, "C"); }
@@ -325,12 +406,13 @@ static void GenAll(uint64_t seed, bool thorough, std::vector<std::string>& out)
 static ApiListener::Ptr l_Listener;
 static Shared<boost::asio::ssl::context>::Ptr l_Ssl;
 static std::string l_Dir;
-static Endpoint::Ptr l_Ep[3];
-static JsonRpcConnection::Ptr l_Conn[3];      /* attached client (null = disconnected) */
-static JsonRpcConnection::Ptr l_In[3];        /* connection object incoming messages are handed to */
-static Zone::Ptr l_ZMaster, l_ZSat, l_ZAgent, l_ZX, l_ZG;
+static const int kNP = 6;                     /* peers A B C D E F */
+static Endpoint::Ptr l_Ep[kNP];
+static JsonRpcConnection::Ptr l_Conn[kNP];      /* attached client (null = disconnected) */
+static JsonRpcConnection::Ptr l_In[kNP];        /* connection object incoming messages are handed to */
+static Zone::Ptr l_ZTop, l_ZMaster, l_ZSat, l_ZAgent, l_ZX, l_ZG;
 static bool l_ZxDropped = false;
-static int l_PaFirst = 0, l_Dur[3] = { 86400, 86400, 86400 };
+static int l_PaFirst = 0, l_Dur[kNP] = { 86400, 86400, 86400, 86400, 86400, 86400 };
 static std::atomic<int> l_Noop{0};
 static long long l_PrevCur = 0;
 
@@ -370,8 +452,10 @@ static const char *PaName() { return l_PaFirst ? "aaa" : "zzz"; }
 static std::string StateLine(long long lastTs)
 {
 	std::ostringstream o;
-	o << l_PaFirst << " " << l_Dur[0] << " " << l_Dur[1] << " " << l_Dur[2] << " " << (l_ZxDropped ? 1 : 0) << " " << lastTs;
-	for (int p = 0; p < 3; p++) o << " " << Us(l_Ep[p]->GetLocalLogPosition()) << " " << Us(l_Ep[p]->GetRemoteLogPosition());
+	o << l_PaFirst;
+	for (int p = 0; p < kNP; p++) o << " " << l_Dur[p];
+	o << " " << (l_ZxDropped ? 1 : 0) << " " << lastTs;
+	for (int p = 0; p < kNP; p++) o << " " << Us(l_Ep[p]->GetLocalLogPosition()) << " " << Us(l_Ep[p]->GetRemoteLogPosition());
 	return o.str();
 }
 
@@ -393,8 +477,8 @@ static void ApplyIdentity()
 	l_Listener->SetIdentity(MyName());
 	static_pointer_cast<ConfigObject>(l_Listener)->OnAllConfigLoaded();
 	l_Ep[0] = l_PaFirst ? l_Aaa : l_Zzz;
-	for (int p = 0; p < 3; p++) l_Ep[p]->SetLogDuration(l_Dur[p]);
-	for (int p = 0; p < 3; p++) l_In[p] = MkConn(p);
+	for (int p = 0; p < kNP; p++) l_Ep[p]->SetLogDuration(l_Dur[p]);
+	for (int p = 0; p < kNP; p++) l_In[p] = MkConn(p);
 }
 
 static void RegisterZx()
@@ -432,12 +516,14 @@ static void BootNode(const std::string& work, const std::string& dir, bool resum
 	SetNow(Sec(now));
 
 	long long lastTs = 0;
-	long long pos[6] = { 0, 0, 0, 0, 0, 0 };
+	long long pos[2 * kNP] = { 0 };
 	int zxDropped = 0;
 	if (resume) {
 		std::istringstream is(ReadFile(l_Dir + "/verif-state.txt"));
-		is >> l_PaFirst >> l_Dur[0] >> l_Dur[1] >> l_Dur[2] >> zxDropped >> lastTs;
-		for (int i = 0; i < 6; i++) is >> pos[i];
+		is >> l_PaFirst;
+		for (int p = 0; p < kNP; p++) is >> l_Dur[p];
+		is >> zxDropped >> lastTs;
+		for (int i = 0; i < 2 * kNP; i++) is >> pos[i];
 		if (!is) Die("cannot read verif-state.txt for a start line");
 	}
 
@@ -452,13 +538,13 @@ static void BootNode(const std::string& work, const std::string& dir, bool resum
 	l_Listener = l;
 
 	std::vector<Endpoint::Ptr> eps;
-	for (const char *n : { "aaa", "zzz", "pb", "pc" }) {
+	for (const char *n : { "aaa", "zzz", "pb", "pc", "pb2", "pt1", "pt2" }) {
 		Endpoint::Ptr e = new Endpoint();
 		e->SetName(n);
 		e->Register();
 		eps.push_back(e);
 	}
-	l_Aaa = eps[0]; l_Zzz = eps[1]; l_Ep[1] = eps[2]; l_Ep[2] = eps[3];
+	l_Aaa = eps[0]; l_Zzz = eps[1]; l_Ep[1] = eps[2]; l_Ep[2] = eps[3]; l_Ep[3] = eps[4]; l_Ep[4] = eps[5]; l_Ep[5] = eps[6];
 	auto mkZone = [](const char *name, const char *parent, Array::Ptr endpoints, bool global) {
 		Zone::Ptr z = new Zone();
 		z->SetName(name);
@@ -468,17 +554,18 @@ static void BootNode(const std::string& work, const std::string& dir, bool resum
 		z->Register();
 		return z;
 	};
-	l_ZMaster = mkZone("master", nullptr, new Array({ "aaa", "zzz" }), false);
-	l_ZSat = mkZone("sat", "master", new Array({ "pb" }), false);
+	l_ZTop = mkZone("top", nullptr, new Array({ "pt1", "pt2" }), false);
+	l_ZMaster = mkZone("master", "top", new Array({ "aaa", "zzz" }), false);
+	l_ZSat = mkZone("sat", "master", new Array({ "pb", "pb2" }), false);
 	l_ZAgent = mkZone("agent", "sat", new Array({ "pc" }), false);
 	l_ZG = mkZone("g", nullptr, nullptr, true);
-	std::vector<Zone::Ptr> zones = { l_ZMaster, l_ZSat, l_ZAgent, l_ZG };
+	std::vector<Zone::Ptr> zones = { l_ZTop, l_ZMaster, l_ZSat, l_ZAgent, l_ZG };
 	for (auto& z : zones) static_pointer_cast<ConfigObject>(z)->OnAllConfigLoaded();
 	for (auto& e : eps) static_pointer_cast<ConfigObject>(e)->OnAllConfigLoaded();
 	ApplyIdentity();
 	if (resume) {
 		l_Listener->SetLogMessageTimestamp(Sec(lastTs));
-		for (int p = 0; p < 3; p++) { l_Ep[p]->SetLocalLogPosition(Sec(pos[2 * p])); l_Ep[p]->SetRemoteLogPosition(Sec(pos[2 * p + 1])); }
+		for (int p = 0; p < kNP; p++) { l_Ep[p]->SetLocalLogPosition(Sec(pos[2 * p])); l_Ep[p]->SetRemoteLogPosition(Sec(pos[2 * p + 1])); }
 	}
 	l_Listener->PreActivate();
 	l_Listener->Activate();         /* ApiListener::Start(): OpenLogFile, timers */
@@ -533,10 +620,20 @@ static std::string DescribeOut(const std::vector<String>& q)
 	return r.empty() ? "-" : r;
 }
 
+/* oracle: in which order the std::set of a two-endpoint zone is visited (pointer order; differs from process to process) */
+static std::string OrderStr()
+{
+	auto secondFirst = [](const Zone::Ptr& z, const Endpoint::Ptr& second) {
+		auto eps = z->GetEndpoints();
+		return !eps.empty() && *eps.begin() == second ? 1 : 0;
+	};
+	return std::to_string(secondFirst(l_ZSat, l_Ep[3])) + " " + std::to_string(secondFirst(l_ZTop, l_Ep[5]));
+}
+
 static std::string PosStr()
 {
 	std::ostringstream o;
-	for (int p = 0; p < 3; p++)
+	for (int p = 0; p < kNP; p++)
 		o << (p ? "," : "") << Us(l_Ep[p]->GetLocalLogPosition()) << "," << Us(l_Ep[p]->GetRemoteLogPosition());
 	return o.str();
 }
@@ -605,6 +702,9 @@ static int PeerIdx(const std::string& p)
 	if (p == "A") return 0;
 	if (p == "B") return 1;
 	if (p == "C") return 2;
+	if (p == "D") return 3;
+	if (p == "E") return 4;
+	if (p == "F") return 5;
 	Die("bad peer " + p);
 	return 0;
 }
@@ -617,13 +717,13 @@ static void ResetCase(long long now)
 		std::unique_lock<std::mutex> lock(l->*get(LogLockTag()));
 		(l->*get(CloseTag()))();
 	}
-	for (int p = 0; p < 3; p++) {
+	for (int p = 0; p < kNP; p++) {
 		if (l_Conn[p]) { l_Ep[p]->RemoveClient(l_Conn[p]); l_Conn[p] = nullptr; }
 	}
 	std::error_code ec;
 	fs::remove_all(LogDir(), ec);
 	ApplyIdentity();
-	for (int p = 0; p < 3; p++) {
+	for (int p = 0; p < kNP; p++) {
 		l_Ep[p]->SetLocalLogPosition(0);
 		l_Ep[p]->SetRemoteLogPosition(0);
 		ObjectLock olock(l_Ep[p]);
@@ -673,20 +773,30 @@ static void RunOp(const std::vector<std::string>& w, const std::string& line)
 	const std::string& op = w[0];
 	auto need = [&](size_t n) { if (w.size() != n) Die("bad line: " + line); };
 	if (op == "C") {
-		need(7);
+		need(4 + kNP);
 		l_PaFirst = atoi(w[3].c_str());
-		for (int i = 0; i < 3; i++) l_Dur[i] = atoi(w[4 + i].c_str());
+		for (int i = 0; i < kNP; i++) l_Dur[i] = atoi(w[4 + i].c_str());
 		ResetCase(atoll(w[2].c_str()));
-		printf("%s\n", line.c_str());
+		printf("%s | %s\n", line.c_str(), OrderStr().c_str());
 	} else if (op == "relay") {
-		need(4);
+		if (w.size() != 4 && w.size() != 5) Die("bad line: " + line);
 		SetNow(Sec(atoll(w[1].c_str())));
-		for (int p = 0; p < 3; p++) if (l_Conn[p]) Drain(l_Conn[p]);
+		for (int p = 0; p < kNP; p++) if (l_Conn[p]) Drain(l_Conn[p]);
 		auto before = RotatedNames();
-		Dictionary::Ptr msg = new Dictionary({ { "jsonrpc", "2.0" }, { "method", "verif::Event" },
-			{ "params", new Dictionary({ { "id", atoi(w[2].c_str()) } }) } });
 		Zone::Ptr sec = SecZone(w[3]);
 		if (w[3] == "x" && l_ZxDropped) Die("relay for a dropped object");
+		Dictionary::Ptr params = new Dictionary({ { "id", atoi(w[2].c_str()) } });
+		Dictionary::Ptr msg = new Dictionary({ { "jsonrpc", "2.0" }, { "method", "verif::Event" }, { "params", params } });
+		if (w.size() == 5 && w[4] != "-") {
+			/* a record of (about) the wanted length: estimate the length without padding the way PersistMessage builds the
+			 * record — only to CHOOSE the input; what was really written is read back from the file below */
+			Dictionary::Ptr probe = new Dictionary({ { "jsonrpc", "2.0" }, { "method", "verif::Event" },
+				{ "params", new Dictionary({ { "id", atoi(w[2].c_str()) }, { "pad", "" } }) }, { "ts", Sec(atoll(w[1].c_str())) } });
+			Dictionary::Ptr rec = new Dictionary({ { "timestamp", Sec(atoll(w[1].c_str())) }, { "message", JsonEncode(probe) } });
+			if (sec) rec->Set("secobj", new Dictionary({ { "type", "Zone" }, { "name", sec->GetName() } }));
+			long long base = (long long)JsonEncode(rec).GetLength(), want = atoll(w[4].c_str());
+			params->Set("pad", String(std::string((size_t)std::max<long long>(0, want - base), 'x')));
+		}
 		l->RelayMessage(nullptr, sec, msg, true);
 		Sync();
 		FlushLog();
@@ -706,8 +816,8 @@ static void RunOp(const std::vector<std::string>& w, const std::string& line)
 		}
 		l_PrevCur = (long long)cur.size();
 		int live = 0;
-		for (int p = 0; p < 3; p++) if (l_Conn[p] && !Drain(l_Conn[p]).empty()) live |= 1 << p;
-		printf("%s | %s %d %s %s\n", line.c_str(), Hex(frame).c_str(), live, newFile.c_str(), PosStr().c_str());
+		for (int p = 0; p < kNP; p++) if (l_Conn[p] && !Drain(l_Conn[p]).empty()) live |= 1 << p;
+		printf("%s | %s %d %s %s\n", line.c_str(), HexRle(frame).c_str(), live, newFile.c_str(), PosStr().c_str());
 	} else if (op == "conn") {
 		need(2);
 		int p = PeerIdx(w[1]);
@@ -795,15 +905,15 @@ static void RunOp(const std::vector<std::string>& w, const std::string& line)
 		double now = Sec(atoll(w[1].c_str()));
 		SetNow(now);
 		Sync();
-		for (int p = 0; p < 3; p++) if (l_Conn[p]) Drain(l_Conn[p]);
+		for (int p = 0; p < kNP; p++) if (l_Conn[p]) Drain(l_Conn[p]);
 		auto before = RotatedNames();
 		(l->*get(TimerTag()))->Reschedule(0);
 		Timer::VerifFireDue(now);
 		Sync();
 		std::string deleted = Diff(before, RotatedNames());
-		std::string outs[3];
-		for (int p = 0; p < 3; p++) outs[p] = l_Conn[p] ? DescribeOut(Drain(l_Conn[p])) : "-";
-		printf("%s | %s %s %s %s %s\n", line.c_str(), deleted.c_str(), outs[0].c_str(), outs[1].c_str(), outs[2].c_str(), PosStr().c_str());
+		std::string outs;
+		for (int p = 0; p < kNP; p++) outs += (p ? " " : "") + (l_Conn[p] ? DescribeOut(Drain(l_Conn[p])) : std::string("-"));
+		printf("%s | %s %s %s\n", line.c_str(), deleted.c_str(), outs.c_str(), PosStr().c_str());
 	} else if (op == "ack") {
 		need(3);
 		int p = PeerIdx(w[1]);
@@ -863,7 +973,7 @@ static void RunOp(const std::vector<std::string>& w, const std::string& line)
 		need(2);
 		SetNow(Sec(atoll(w[1].c_str())));
 		Sync();
-		for (int p = 0; p < 3; p++) if (l_Conn[p]) { l_Ep[p]->RemoveClient(l_Conn[p]); l_Conn[p] = nullptr; }
+		for (int p = 0; p < kNP; p++) if (l_Conn[p]) { l_Ep[p]->RemoveClient(l_Conn[p]); l_Conn[p] = nullptr; }
 		auto before = RotatedNames();
 		l_Listener->Deactivate();
 		printf("%s | %s %s\n", line.c_str(), Diff(RotatedNames(), before).c_str(), PosStr().c_str());
@@ -902,7 +1012,7 @@ static int NodeMain(const std::string& file, const std::string& work, const std:
 	bool resume = w0[0] == "start";
 	if (!resume && w0[0] != "C") Die("a segment starts with C or start: " + lines[0]);
 	if (resume && w0.size() != 2) Die("bad line: " + lines[0]);
-	if (!resume && w0.size() != 7) Die("bad line: " + lines[0]);
+	if (!resume && w0.size() != (size_t)(4 + kNP)) Die("bad line: " + lines[0]);
 	setvbuf(stdout, nullptr, _IOLBF, 0);      /* what was observed before a crash of the real code must not be lost */
 	InitIcinga();
 	BootNode(work, dir, resume, atoll(w0[resume ? 1 : 2].c_str()));
@@ -911,7 +1021,7 @@ static int NodeMain(const std::string& file, const std::string& work, const std:
 		auto w = Words(lines[i]);
 		if (ended) Die("line after stop/crash without start: " + lines[i]);
 		if (i == 0 && resume) {
-			printf("%s | %s\n", lines[0].c_str(), PosStr().c_str());
+			printf("%s | %s %s\n", lines[0].c_str(), OrderStr().c_str(), PosStr().c_str());
 		} else {
 			WriteFile(dir + ".op", lines[i] + "\n");
 			RunOp(w, lines[i]);
